@@ -38,7 +38,7 @@ fn panic_violation(out: &mut CaseOut, stage: &str, msg: &str, input: &str) {
 fn size(v: &Value) -> usize {
     match v {
         Value::Record(attrs, items) => {
-            1 + attrs.iter().map(|a| 1 + size(&a.value)).sum::<usize>()
+            1 + attrs.iter().map(|a| a.name.as_str().chars().count() + size(&a.value)).sum::<usize>()
                 + items
                     .iter()
                     .map(|i| match i {
@@ -343,7 +343,7 @@ pub fn run(s: &mut Session) {
         |i, rng, out| probes[(i % np) as usize].roundtrip(rng, out),
     ); }
 
-    let cases = s.args.budget(8_000, 200_000);
+    let cases = s.args.budget(5_000, 200_000);
     if crate::want(s, "value-fixpoint") { s.part(
         "value-fixpoint",
         "arbitrary model Values (boundary primitives, arbitrary attr names / slot keys, depth <= 64): every printer's output parses; the parsed value v1 (parser-produced) comes back exactly through all three printers (so f(f(v)) == f(v)); non-trivial when v is a record or text; distinct by value",
@@ -396,7 +396,7 @@ pub fn run(s: &mut Session) {
         },
     ); }
 
-    let cases = s.args.budget(12_000, 400_000);
+    let cases = s.args.budget(8_000, 400_000);
     if crate::want(s, "text-roundtrip") { s.part(
         "text-roundtrip",
         "grammar-generated texts (random styles, 40% char-mutated, <= 4 KiB): parse_recognize never panics; when it yields v, v comes back exactly through all three printers; non-trivial when the text is non-empty; distinct by text",
@@ -429,7 +429,7 @@ pub fn run(s: &mut Session) {
         },
     ); }
 
-    let cases = s.args.budget(5_000, 150_000);
+    let cases = s.args.budget(4_000, 150_000);
     if crate::want(s, "chunk-single-cut") { s.part(
         "chunk-single-cut",
         "texts (grammar, 30% mutated; 25% printed typed values decoded with their own recognizer): RecognizerDecoder and WithLenRecognizerDecoder fed the bytes cut at EVERY position 0..=n (for the framed decoder also inside the length header) give the one-shot parse_recognize result (same value, or no value when one-shot errors); two frames per run, both must be delivered; non-trivial when n >= 2; distinct by (type, text)",
